@@ -633,10 +633,10 @@ fn run_miri_tier(id: &str, n: usize, max_tape: usize, seed: u64) -> Result<(u64,
 
 fn fuzz_target_for(id: &str) -> Option<(&'static str, u64)> {
     match id {
-        "C01" | "C02" | "C03" | "C04" | "C05" | "C07" | "C08" | "C09" | "C14" => Some(("solve_oracles", 15_000)),
-        "C10" | "C11" | "C12" | "C13" => Some(("async_sched", 10_000)),
-        "C18" | "C19" => Some(("containers", 15_000)),
-        "C16" | "C20" => Some(("snapshot_cache", 15_000)),
+        "C01" | "C02" | "C03" | "C04" | "C05" | "C07" | "C08" | "C09" | "C14" => Some(("solve_oracles", 60_000)),
+        "C10" | "C11" | "C12" | "C13" => Some(("async_sched", 40_000)),
+        "C18" | "C19" => Some(("containers", 60_000)),
+        "C16" | "C20" => Some(("snapshot_cache", 60_000)),
         _ => None,
     }
 }
@@ -681,11 +681,12 @@ fn run_fuzz_campaign(
         .arg(format!("-seed={}", if seed == 0 { 1 } else { seed }))
         .arg("-len_control=0")
         .arg("-max_len=3200")
-        .arg("-timeout=120")
+        .arg("-timeout=600")
         .arg("-rss_limit_mb=4096")
         .arg(format!("-artifact_prefix={}/", artifacts.display()))
         .arg(&corpus)
         .env("VERIF_ROOT", vcore::runner::verif_root())
+        .env("VERIF_FUZZ_ONLY", id)
         .output()
         .map_err(|e| e.to_string())?;
     let stderr = String::from_utf8_lossy(&out.stderr);
@@ -726,7 +727,16 @@ fn run_fuzz_campaign(
             }
         }
     }
-    if !out.status.success() && vio.is_empty() {
+    // an input that merely was slow (libFuzzer's -timeout, exit status 70; the targets run with
+    // AddressSanitizer and debug assertions, possibly on a loaded machine) and that passes
+    // through the plain path above is not a verdict of any kind
+    let only_slow = std::fs::read_dir(&artifacts)
+        .map(|rd| rd.filter_map(|e| e.ok()).all(|e| {
+            let n = e.file_name().to_string_lossy().to_string();
+            n.starts_with("timeout-") || n.starts_with("slow-unit-")
+        }))
+        .unwrap_or(true);
+    if !out.status.success() && vio.is_empty() && !(out.status.code() == Some(70) && only_slow) {
         // the campaign stopped on something that does not reproduce as a violation of THIS
         // property through the plain evaluation path (e.g. it belongs to another property
         // served by the same target, or only shows under ASan/debug assertions): say so.
